@@ -776,7 +776,7 @@ def build_harness(ctx, name, race=False):
     for fn in os.listdir(srcdir):
         if fn.endswith(".go"):
             shutil.copy(os.path.join(srcdir, fn), os.path.join(d, fn))
-    out = os.path.join(ctx.root, "bin", "h_" + name)
+    out = os.path.join(ctx.root, "bin", "h_" + name + ("_race" if race else ""))
     os.makedirs(os.path.dirname(out), exist_ok=True)
     cmd = ["go", "build", "-trimpath", "-tags", GUARD_TAG] + (["-race"] if race else []) + ["-o", out, "./zzverif_" + name]
     t = time.time()
